@@ -21,6 +21,14 @@ PROPS = {
         not_covered=["that the coefficient-wise Frobenius map is x -> x^(q^k) (A5')", "random(), Display/Debug impls"],
         assumptions=[A['A5'], A['A5p'], A['D_FQ'], A['TOOLS']],
     ),
+    'C17': dict(
+        units_quick=['cofactor'], units_thorough=['cofactor'], timeout=240,
+        claim="chain_z, chain_h2_eff (real bodies, generic over CurveProjective), G1::clear_h and G2::clear_h return exactly [0xd201000000010000]P, "
+              "[h_eff(G2)]P (the 636-bit RFC 9380 constant), [0xd201000000010001]P and [h_eff(G2)]P for every point of the abstract group, i.e. for every "
+              "curve point in any representation; additivity and O -> O follow from the exact multiplier.",
+        not_covered=["that [h_eff]P has order dividing r (A4: group orders)"],
+        assumptions=[A['A3'], A['A4'], "contracts of CurveProjective::{double, add_assign, sub_assign, is_zero, ...} are assumed in this unit; they are the statements of the C01 unit lifted through A3", A['TOOLS']],
+    ),
 }
 
 HOOK_COMMITS = []
